@@ -16,6 +16,7 @@ package middlewares
 
 import (
 	"net/url"
+	"strings"
 
 	"github.com/gofiber/fiber/v2"
 	"github.com/versity/versitygw/metrics"
@@ -29,6 +30,14 @@ func DecodeURL(logger s3log.AuditLogger, mm *metrics.Manager) fiber.Handler {
 		unescp, err := url.QueryUnescape(string(ctx.Request().URI().PathOriginal()))
 		if err != nil {
 			return controllers.SendResponse(ctx, s3err.GetAPIError(s3err.ErrInvalidURI), &controllers.MetaOpts{Logger: logger, MetricsMng: mm})
+		}
+		// "." and ".." are never resolved: a bucket or object name with such
+		// a segment would designate another location of the backing store
+		// (another bucket, or something outside the gateway root)
+		for _, seg := range strings.Split(unescp, "/") {
+			if seg == "." || seg == ".." {
+				return controllers.SendResponse(ctx, s3err.GetAPIError(s3err.ErrInvalidURI), &controllers.MetaOpts{Logger: logger, MetricsMng: mm})
+			}
 		}
 		ctx.Path(unescp)
 		return ctx.Next()
